@@ -323,6 +323,14 @@ public:
             if (MD->getDeclName().isIdentifier())
                 J.attribute("member", MD->getName());
             J.attribute("arrow", ME->isArrow());
+            {
+                SourceLocation ML = ME->getMemberLoc();
+                if (ML.isValid() && ML.isMacroID()) {
+                    StringRef MN = Lexer::getImmediateMacroName(ML, SM, LO);
+                    if (!MN.empty())
+                        J.attribute("mmacro", MN);
+                }
+            }
             if (const auto *FD = dyn_cast<FieldDecl>(MD)) {
                 const RecordDecl *RD = FD->getParent();
                 if (RD->getDeclName().isIdentifier() && !RD->getName().empty())
